@@ -1,3 +1,4 @@
+mod alpha;
 mod bits;
 mod c01;
 mod c02;
@@ -5,13 +6,17 @@ mod c03;
 mod c05;
 mod c07;
 mod c11;
+mod c20;
+mod digest;
 mod rtext;
 mod common;
 mod cprref;
 mod e1;
 mod e2;
+mod e3;
 mod enc;
 mod fields;
+mod gen;
 mod proj;
 mod refdec;
 mod tools;
@@ -49,6 +54,8 @@ fn main() {
         "C13" => e2::c13(tier),
         "C14" => e2::c14(tier),
         "C15" => e2::c15(tier),
+        "C19" => e3::run(tier),
+        "C20" => c20::run(tier),
         "replay" => fields::replay(&args[2]),
         "history" => e2::replay_history(&args[2]),
         "mkfeed" => tools::mkfeed(),
